@@ -39,13 +39,13 @@ static int parse_bytes1(const char *s, size_t len, vbuf *out) {
     if (len >= sizeof(tmp)) return 0;
     memcpy(tmp, s + 1, len - 1); tmp[len - 1] = 0;
     if (s[0] == '@') {
-      if (sscanf(tmp, "%llu:%llu", &a, &b) != 2) return 0;
+      if (sscanf(tmp, "%llu~%llu", &a, &b) != 2) return 0;
       for (i = 0; i < b; i++) vb_push(out, pat_byte(a, i));
     } else if (s[0] == '=') {
-      if (sscanf(tmp, "%2x:%llu", &hx, &b) != 2) return 0;
+      if (sscanf(tmp, "%2x~%llu", &hx, &b) != 2) return 0;
       for (i = 0; i < b; i++) vb_push(out, (uint8_t)hx);
     } else {
-      if (sscanf(tmp, "%llu:%llu:%llu", &a, &b, &c) != 3 || c == 0) return 0;
+      if (sscanf(tmp, "%llu~%llu~%llu", &a, &b, &c) != 3 || c == 0) return 0;
       for (i = 0; i < b; i++) vb_push(out, pat_byte(a, i % c));
     }
     return 1;
